@@ -48,6 +48,13 @@ CHECKS = {
         "design_ref": "DESIGN.md section 4, C06",
         "level_note": E4_NOTE + " Proved relative to the in_unit axiom (C04). Not decided: rounding ties.",
     },
+    "C14": {
+        "engine": "E1+E4",
+        "technique": "abstract interpretation of every Measurement operator to normal forms (rational functions with sqrt/abs heads); symbolic differentiation of the method's own measurand expression; units-of-measure typing of the stored uncertainty",
+        "level_text": "For + - * / ** and the reflected forms, with a Measurement or a plain Quantity on the other side, sigma^2 of the result is normalised and compared with sum((df/dx_i)^2 sigma_i^2), f being the measurand expression of the same method - an identity of rational functions, hence for all magnitudes, uncertainties, units and (symbolic) exponents. Unit typing, absence of spurious singularities and abs() storage are separate armed rules. All obligations are discharged after two fix: commits.",
+        "design_ref": "DESIGN.md section 4, C14",
+        "level_note": E4_NOTE + " Axioms: in_unit value-preserving (C04), Quantity operators as specified (C03/C06). Not decided: floating-point rounding of the verified formulas.",
+    },
     "C11": {
         "engine": "E1+E4+E5",
         "technique": "abstract interpretation of Prefix/Unit operators (prefix component, log-value identities), value-preservation normal forms for quantify/unprefixed, def-use rule on convert/_plan_conversion, declared-prefix table from E5",
